@@ -29,6 +29,111 @@ pub(super) fn detect_cycles(ast: &Ast, diagnostics: &mut Diagnostics) {
     }
 }
 
+/// Checks for type aliases that contain themselves through an anonymous type (`typealias A = Sequence<A>`) and for
+/// interfaces that inherit from themselves. Neither can be given a meaning, and code that walks through a type's
+/// nested types, or through an interface's bases, would never terminate on them.
+pub(super) fn detect_recursive_aliases_and_interfaces(ast: &Ast, diagnostics: &mut Diagnostics) {
+    for node in ast.as_slice() {
+        match node {
+            Node::TypeAlias(type_alias) => {
+                let type_alias = type_alias.borrow();
+                if anonymous_type_contains_itself(&type_alias.underlying) {
+                    Diagnostic::new(Error::SelfReferentialTypeAliasNeedsConcreteType {
+                        identifier: type_alias.module_scoped_identifier(),
+                    })
+                    .set_span(type_alias.span())
+                    .add_note("the aliased type contains the type alias itself", Some(type_alias.underlying.span()))
+                    .push_into(diagnostics);
+                }
+            }
+            Node::Interface(interface) => {
+                let interface = interface.borrow();
+                if let Some(cycle) = find_inheritance_cycle(interface) {
+                    Diagnostic::new(Error::InfiniteSizeCycle {
+                        type_id: interface.module_scoped_identifier(),
+                        cycle: cycle.join(" -> "),
+                    })
+                    .set_span(interface.span())
+                    .add_note("an interface cannot inherit from itself", None)
+                    .push_into(diagnostics);
+                }
+            }
+            _ => {}
+        }
+    }
+}
+
+/// Returns the address of the anonymous type that `type_ref` refers to, along with the types nested directly in it.
+/// Returns `None` for references to primitives and to named types (structs, enums, and custom types).
+fn nested_types_of(type_ref: &TypeRef) -> Option<(*const (), Vec<&TypeRef>)> {
+    match type_ref.concrete_type() {
+        Types::Sequence(sequence) => Some((sequence as *const Sequence as *const (), vec![&sequence.element_type])),
+        Types::Dictionary(dictionary) => Some((
+            dictionary as *const Dictionary as *const (),
+            vec![&dictionary.key_type, &dictionary.value_type],
+        )),
+        Types::ResultType(result_type) => Some((
+            result_type as *const ResultType as *const (),
+            vec![&result_type.success_type, &result_type.failure_type],
+        )),
+        Types::Struct(_) | Types::Enum(_) | Types::CustomType(_) | Types::Primitive(_) => None,
+    }
+}
+
+/// Returns true if the anonymous type referred to by `root` can be reached from itself through nested anonymous types.
+fn anonymous_type_contains_itself(root: &TypeRef) -> bool {
+    let Some((root_address, nested_types)) = nested_types_of(root) else { return false };
+
+    let mut visited = HashSet::new();
+    let mut pending = nested_types;
+    while let Some(type_ref) = pending.pop() {
+        if let Some((address, nested_types)) = nested_types_of(type_ref) {
+            if address == root_address {
+                return true;
+            }
+            if visited.insert(address) {
+                pending.extend(nested_types);
+            }
+        }
+    }
+    false
+}
+
+/// If `root` inherits from itself (directly or transitively), returns the identifiers of the interfaces along the
+/// shortest such cycle, starting and ending with `root`. Otherwise returns `None`.
+fn find_inheritance_cycle(root: &Interface) -> Option<Vec<String>> {
+    let root_id = root.module_scoped_identifier();
+
+    // Breadth-first search through the base interfaces; `predecessors` stores how each interface was first reached.
+    let mut predecessors: Vec<(String, Option<usize>)> = vec![(root_id.clone(), None)];
+    let mut pending: Vec<(&Interface, usize)> = vec![(root, 0)];
+    let mut visited = HashSet::new();
+    let mut next = 0;
+    while next < pending.len() {
+        let (interface, index) = pending[next];
+        next += 1;
+        for base in interface.base_interfaces() {
+            let base_id = base.module_scoped_identifier();
+            if base_id == root_id {
+                // Walk back to the root to reconstruct the cycle.
+                let mut cycle = vec![root_id.clone()];
+                let mut current = Some(index);
+                while let Some(i) = current {
+                    cycle.push(predecessors[i].0.clone());
+                    current = predecessors[i].1;
+                }
+                cycle.reverse();
+                return Some(cycle);
+            }
+            if visited.insert(base_id.clone()) {
+                predecessors.push((base_id, Some(index)));
+                pending.push((base, predecessors.len() - 1));
+            }
+        }
+    }
+    None
+}
+
 /// This trait is implemented on a type if and only if it is possible for that type to cause a cycle.
 /// It contains a single method, used to check the type for cycles with the help of a [`CycleDetector`].
 trait CycleCandidate<'a>: Type + NamedSymbol {
